@@ -220,6 +220,48 @@ func Uneval(props bool, thorough bool) *Set {
 			s.Add("Ucousin", `{"anyOf":[`+mergeObjs(x, `{"`+kw+`":false}`)+`,`+y+`],"`+kw+`":{"type":"integer"}}`)
 		}
 	}
+	// evaluations at child locations, or reached through the reference forms, with hand-written shapes
+	if props {
+		for _, x := range []string{
+			`{"patternProperties":{"^a":{"properties":{"b":true}}},"unevaluatedProperties":false}`,
+			`{"properties":{"a":{"properties":{"b":true},"unevaluatedProperties":false}},"unevaluatedProperties":false}`,
+			`{"properties":{"a":{"properties":{"b":true,"c":true}}},"unevaluatedProperties":{"type":"integer"}}`,
+			`{"propertyNames":{"properties":{"b":true}},"unevaluatedProperties":false}`,
+			`{"dependentSchemas":{"a":{"properties":{"a":{"properties":{"b":true}}}}},"unevaluatedProperties":false}`,
+			`{"additionalProperties":{"properties":{"b":true}},"properties":{"b":false},"unevaluatedProperties":false}`,
+			`{"anyOf":[{"properties":{"a":{"properties":{"b":true}}}},{"patternProperties":{"^c":true}}],"unevaluatedProperties":false}`,
+			`{"$defs":{"d":{"$anchor":"n","properties":{"a":true}}},"$dynamicRef":"#n","unevaluatedProperties":false}`,
+			`{"$defs":{"d":{"$anchor":"n","properties":{"a":true}}},"allOf":[{"$dynamicRef":"#n"}],"unevaluatedProperties":{"type":"integer"}}`,
+			`{"$id":"http://h/r.json","$ref":"s.json","$defs":{"o":{"$dynamicAnchor":"n","properties":{"b":true}},"s":{"$id":"s.json","$dynamicRef":"#n","$defs":{"i":{"$dynamicAnchor":"n","properties":{"a":true}}}}},"unevaluatedProperties":false}`,
+			`{"$id":"http://h/r.json","$ref":"s.json","$defs":{"s":{"$id":"s.json","$dynamicRef":"#n","$defs":{"i":{"$dynamicAnchor":"n","properties":{"a":true}}}}},"unevaluatedProperties":false}`,
+			`{"$defs":{"d":{"properties":{"a":true},"unevaluatedProperties":false}},"$ref":"#/$defs/d","properties":{"b":true}}`,
+			`{"$defs":{"d":{"properties":{"a":true}}},"properties":{"a":{"$ref":"#/$defs/d"}},"unevaluatedProperties":false}`,
+			`{"if":{"properties":{"a":{"properties":{"b":{"const":1}}}},"required":["a"]},"then":{"properties":{"b":true}},"unevaluatedProperties":false}`,
+			`{"not":{"not":{"properties":{"a":true}}},"unevaluatedProperties":false}`,
+			`{"oneOf":[{"properties":{"a":true},"required":["a"]},{"properties":{"b":true},"required":["b"]}],"unevaluatedProperties":false}`,
+		} {
+			s.Add("Uchild", x)
+		}
+	} else {
+		for _, x := range []string{
+			`{"contains":{"type":"array","items":true},"unevaluatedItems":false}`,
+			`{"contains":{"type":"array","prefixItems":[true,true]},"unevaluatedItems":{"type":"integer"}}`,
+			`{"prefixItems":[{"prefixItems":[true,true]}],"unevaluatedItems":false}`,
+			`{"items":{"prefixItems":[true]},"unevaluatedItems":false}`,
+			`{"contains":{"contains":{"const":1}},"unevaluatedItems":false}`,
+			`{"prefixItems":[true],"contains":{"const":"x"},"unevaluatedItems":false}`,
+			`{"prefixItems":[{"unevaluatedItems":false}],"unevaluatedItems":false}`,
+			`{"anyOf":[{"prefixItems":[{"items":true}]},{"contains":{"const":"x"}}],"unevaluatedItems":false}`,
+			`{"$defs":{"d":{"$anchor":"n","prefixItems":[true]}},"$dynamicRef":"#n","unevaluatedItems":false}`,
+			`{"$id":"http://h/r.json","$ref":"s.json","$defs":{"o":{"$dynamicAnchor":"n","prefixItems":[true,true]},"s":{"$id":"s.json","$dynamicRef":"#n","$defs":{"i":{"$dynamicAnchor":"n","prefixItems":[true]}}}},"unevaluatedItems":false}`,
+			`{"$defs":{"d":{"prefixItems":[true],"unevaluatedItems":false}},"$ref":"#/$defs/d","contains":{"const":"x"}}`,
+			`{"if":{"prefixItems":[{"const":1}]},"then":{"prefixItems":[true,true]},"unevaluatedItems":false}`,
+			`{"not":{"not":{"prefixItems":[true]}},"unevaluatedItems":false}`,
+			`{"oneOf":[{"prefixItems":[{"const":1}]},{"prefixItems":[true,{"const":1}]}],"unevaluatedItems":false}`,
+		} {
+			s.Add("Uchild", x)
+		}
+	}
 	return s
 }
 
@@ -244,7 +286,7 @@ func UnevalObjects() []string {
 			}
 		}
 	}
-	out = append(out, `{"a":{"b":1}}`, `{"a":{"b":1,"c":1},"b":1}`, `{"a":{}}`)
+	out = append(out, `{"a":{"b":1}}`, `{"a":{"b":1,"c":1},"b":1}`, `{"a":{}}`, `{"a":{"b":1},"b":1}`, `{"a":[1],"b":1}`, `{"a":{"a":{"b":1}},"b":"x"}`)
 	return out
 }
 
@@ -261,6 +303,6 @@ func UnevalArrays() []string {
 			}
 		}
 	}
-	out = append(out, `[1,"x",1,"x"]`, `[[1]]`)
+	out = append(out, `[1,"x",1,"x"]`, `[[1]]`, `[[1],1]`, `[[1,"x"],"x"]`, `[1,[1]]`, `[[1,"x"],[1],1]`)
 	return out
 }
